@@ -17,13 +17,15 @@ N == Len(Trace)
 HorizonSec == 6300
 Names == {"jc1", "jc2.v1.x", "jc3", "jc4"}
 
-VARIABLES l, dues, lo, req, kind, dirty, reqs, allreq, skips, jobsEver, viol
-vars == <<l, dues, lo, req, kind, dirty, reqs, allreq, skips, jobsEver, viol>>
+VARIABLES l, dues, lo, req, kind, dirty, reqs, allreq, skips, jobsEver, hf, viol
+vars == <<l, dues, lo, req, kind, dirty, reqs, allreq, skips, jobsEver, hf, viol>>
 
 Range(f) == {f[x] : x \in DOMAIN f}
 Min(S) == CHOOSE x \in S : \A y \in S : x <= y
 Max(S) == CHOOSE x \in S : \A y \in S : y <= x
 Max2(a, b) == IF a >= b THEN a ELSE b
+\* any injected fault or crash so far in this run (C20 attribution)
+IsFault(e) == ("f" \in DOMAIN e.l /\ e.l.f \notin {"", "ok"}) \/ e.ev \in {"CrashRestart", "Restart", "Crash"}
 Fail(name, ok) == IF ok THEN {} ELSE {name}
 
 DueOf(v) == UNION {x.s : x \in {y \in dues : y.v = v}}
@@ -110,7 +112,7 @@ FinalFails(s, rq, sk, je) ==
     \cup Fail("C20_Quiescent", s.quiet)
 
 Init == /\ l = 1 /\ dues = {} /\ lo = [n \in Names |-> 0] /\ req = [n \in Names |-> 0] /\ kind = [n \in Names |-> "C04"]
-        /\ dirty = {} /\ reqs = {} /\ allreq = {} /\ skips = {} /\ jobsEver = {} /\ viol = {}
+        /\ dirty = {} /\ reqs = {} /\ allreq = {} /\ skips = {} /\ jobsEver = {} /\ hf = FALSE /\ viol = {}
 
 Next ==
     /\ l <= N
@@ -149,7 +151,8 @@ Next ==
                                       ELSE IF ~work /\ n \in NS /\ n \in DOMAIN p.cache /\ SchedKey(p.cache[n]) # SchedKey(s.cache[n]) THEN "C03"
                                       ELSE kind[n]]
           /\ reqs' = rq /\ allreq' = ar /\ skips' = sk /\ jobsEver' = je
-          /\ viol' = viol \cup {[f |-> f, line |-> l, run |-> e.run, ev |-> e.ev, faulted |-> e.faulted] : f \in fs}
+          /\ hf' = IF e.ev = "Reset" THEN FALSE ELSE hf \/ IsFault(e)
+          /\ viol' = viol \cup {r \in {[f |-> f, line |-> l, run |-> e.run, ev |-> e.ev, faulted |-> e.faulted, af |-> (hf \/ IsFault(e))] : f \in fs} : ~\E v \in viol : v.f = r.f /\ v.run = r.run}   \* first failure of a formula in a run only
 Spec == Init /\ [][Next]_vars
 
 Report == (l = N + 1) => PrintT(<<"VERDICT", N, ToJson(viol)>>)
